@@ -780,7 +780,7 @@ def expected_names(N):
     return out
 
 
-def naming(model, rng, fea=0.5, collide=0.6, twin=False):
+def naming(model, rng, fea=0.5, collide=0.6, twin=False, source_records=0.35, labelnames=0.4):
     """A naming configuration: which fontinfo naming fields exist, axis names, instance names / PostScript names that
     collide with family, style, axis and each other's strings, names supplied through feature code."""
     fam = rng.choice(["Verif Sans", "Foo", "Regular", "Ab Cd Display", "Bold"])
@@ -830,6 +830,21 @@ def naming(model, rng, fea=0.5, collide=0.6, twin=False):
                 a["name"] = c
                 break
         used.add(a["name"])
+    # localized axis label names: the UI label is the one tagged exactly "en", else the axis name; regional English tags
+    # (en-GB, en_US, EN) are only ever generated next to a plain "en" so the documented rule decides the outcome
+    for a in axes:
+        if rng.random() < labelnames:
+            ln = {}
+            for lang in rng.sample(["fr", "de", "ja", "fa"], rng.randint(0, 2)):
+                ln[lang] = f"{a['name']} ({lang})"
+            if rng.random() < 0.7:
+                ln["en"] = rng.choice([a["name"] + " label", exp["2"], "Inst A", a["name"]])
+                for lang in rng.sample(["en-GB", "en-US", "en_AU", "EN", "eng"], rng.randint(0, 3)):
+                    ln[lang] = f"{a['name']} ({lang})"
+            items = list(ln.items())
+            rng.shuffle(items)
+            a["labelnames"] = dict(items)
+            a["label"] = ln.get("en", a["name"])
     # named instances
     if axes:
         dflt = {a["tag"]: a["default"] for a in axes}
@@ -850,6 +865,19 @@ def naming(model, rng, fea=0.5, collide=0.6, twin=False):
                 if rng.random() < 0.7:
                     i["psname"] = rng.choice([exp["6"], "PS-" + i["name"].replace(" ", ""), insts[0]["name"].replace(" ", "") + "PS", exp["1"].replace(" ", "")])
         model["instances"] = insts
+    # name records the source supplies itself (UFO openTypeNameRecords): font-specific ids the compiler must not hand out again,
+    # strings that coincide with axis / instance names (so the reuse path meets a source-chosen id)
+    if rng.random() < source_records:
+        pool = ["Source custom", "Source other", exp["1"], "Inst A", "Inst B", "Regular"] + [a["name"] for a in axes] + [i["name"] for i in model.get("instances", [])]
+        ids = rng.sample([256, 256, 257, 258, 259, 260, 300, 1000], rng.randint(1, 3))
+        recs, seen = [], set()
+        for nid in sorted(set(ids)):
+            st = rng.choice(pool)
+            if st in seen:
+                continue  # one string under two source ids: which one a reference reuses is not determined by the rules
+            seen.add(st)
+            recs.append({"id": nid, "string": st})
+        model["name_records"] = recs
     # names through feature code
     model["fea_names"] = []
     if rng.random() < fea:
